@@ -149,4 +149,474 @@ theorem kind_exclusive (L : Lattice) (layers : List Layer) (c : Call) (id : Nat)
     have := hids l (reach_sub _ _ hl) f hf hid
     simp [kindOk, hc, this] at hk
 
+/-! ## spellings of one argument -/
+
+/-- `args'` is `args` with slot `s` emptied (`f(1,,3)`) or cut off (`f(1)` for `f(1,2)`): every other
+    slot, and whatever lies beyond position `k > s`, is unchanged -/
+structure SlotFreed (s : Nat) (args args' : List Arg) : Prop where
+  freed : given args' s = false
+  same_given : ∀ i, i ≠ s → given args' i = given args i
+  same_val : ∀ i, i ≠ s → args'.getD i .noValue = args.getD i .noValue
+  extras : ∀ k, s < k → (decide (args'.length > k) = decide (args.length > k)) ∧ args'.drop k = args.drop k
+
+theorem slotFreed_set (s : Nat) (args : List Arg) : SlotFreed s args (args.set s .noValue) := by
+  refine ⟨?_, ?_, ?_, ?_⟩
+  · simp only [given]
+    by_cases h : s < args.length
+    · rw [List.getElem?_set_self h]; rfl
+    · rw [List.getElem?_eq_none (by simp; omega)]
+  · intro i hi
+    simp only [given, List.getElem?_set_ne (Ne.symm hi)]
+  · intro i hi
+    simp only [List.getD_eq_getElem?_getD, List.getElem?_set_ne (Ne.symm hi)]
+  · intro k hk
+    refine ⟨by simp, ?_⟩
+    apply List.ext_getElem?
+    intro i
+    simp only [List.getElem?_drop]
+    rw [List.getElem?_set_ne (by omega)]
+
+theorem slotFreed_dropLast (args' : List Arg) (a : Arg) : SlotFreed args'.length (args' ++ [a]) args' := by
+  refine ⟨?_, ?_, ?_, ?_⟩
+  · simp [given]
+  · intro i hi
+    simp only [given]
+    by_cases h : i < args'.length
+    · rw [List.getElem?_append_left h]
+    · have : args'.length < i := by omega
+      simp [List.getElem?_eq_none, Nat.le_of_lt this, List.getElem?_append_right (Nat.le_of_lt this)]
+      rw [List.getElem?_eq_none (by simp; omega)]
+  · intro i hi
+    simp only [List.getD_eq_getElem?_getD]
+    by_cases h : i < args'.length
+    · rw [List.getElem?_append_left h]
+    · have : args'.length < i := by omega
+      rw [List.getElem?_eq_none (by omega), List.getElem?_eq_none (by simp; omega)]
+  · intro k hk
+    refine ⟨?_, ?_⟩
+    · simp only [List.length_append, List.length_cons, List.length_nil]
+      have h1 : ¬ (args'.length > k) := by omega
+      have h2 : ¬ (args'.length + (0 + 1) > k) := by omega
+      simp [h1, h2]
+    · rw [List.drop_eq_nil_of_le (by omega), List.drop_eq_nil_of_le (by simp; omega)]
+
+/-- a parameter other than the one whose spelling changes: it does not own slot `s` -/
+theorem delegStep_other (L : Lattice) (ps : List Param) {s : Nat} {args args' : List Arg} (hf : SlotFreed s args args')
+    (st : DelSt) (p' : Param) (hs : slotOf ps p' ≠ some s) :
+    delegStep L ps args' st p' = delegStep L ps args st p' := by
+  unfold delegStep
+  cases hq : p'.position with
+  | none => rfl
+  | some q =>
+      simp only
+      by_cases h1 : p'.isStar = true
+      · simp [h1]
+      · by_cases h2 : p'.hidden = true
+        · simp [h1, h2]
+        · have hne : q - fixAt ps q ≠ s := by
+            intro e
+            apply hs
+            simp [slotOf, hq, h1, h2, e]
+          simp only [h1, h2, Bool.false_eq_true, if_false, hf.same_given _ hne, hf.same_val _ hne]
+
+theorem ahas_false_lookup {α : Type} (k : Name) : ∀ (l : List (Name × α)), ahas k l = false → alookup k l = none
+  | [], _ => rfl
+  | (k', v) :: r, h => by
+      simp only [ahas, List.any_cons, Bool.or_eq_false_iff] at h
+      simp only [alookup, h.1, Bool.false_eq_true, if_false]
+      exact ahas_false_lookup k r (by simpa [ahas] using h.2)
+
+theorem delegStep_rest (L : Lattice) (ps : List Param) (args : List Arg) (n : Name) {st st' : DelSt} {p' : Param}
+    (h : delegStep L ps args st p' = some st') (hn : ahas n st.rest = false) : ahas n st'.rest = false := by
+  have hdel : ∀ k, ahas n (adel k st.rest) = false := by
+    intro k
+    cases hh : ahas n (adel k st.rest) with
+    | false => rfl
+    | true => rw [ahas_adel _ _ _ hh] at hn; cases hn
+  unfold delegStep at h
+  cases hq : p'.position with
+  | some q =>
+      simp only [hq] at h
+      split at h
+      · cases h; exact hn
+      · split at h
+        · cases h; exact hn
+        · split at h
+          · split at h
+            · cases h
+            · simp only [checked, Option.map_eq_some_iff] at h
+              obtain ⟨sl, _, rfl⟩ := h; exact hn
+          · split at h
+            · simp only [checked, Option.map_eq_some_iff] at h
+              obtain ⟨sl, _, rfl⟩ := h; exact hdel _
+            · split at h
+              · simp only [checked, Option.map_eq_some_iff] at h
+                obtain ⟨sl, _, rfl⟩ := h; exact hn
+              · cases h
+  | none =>
+      simp only [hq] at h
+      split at h
+      · cases h; exact hn
+      · split at h
+        · cases h; exact hn
+        · split at h
+          · simp only [checked, Option.map_eq_some_iff] at h
+            obtain ⟨sl, _, rfl⟩ := h; exact hdel _
+          · split at h
+            · simp only [checked, Option.map_eq_some_iff] at h
+              obtain ⟨sl, _, rfl⟩ := h; exact hn
+            · cases h
+
+theorem delegLoop_other (L : Lattice) (ps : List Param) {s : Nat} {args args' : List Arg} (hf : SlotFreed s args args') :
+    ∀ (l : List Param) (st : DelSt), (∀ p' ∈ l, slotOf ps p' ≠ some s) →
+      delegLoop L ps args' st l = delegLoop L ps args st l
+  | [], _, _ => rfl
+  | p' :: r, st, h => by
+      simp only [delegLoop, delegStep_other L ps hf st p' (h p' (by simp))]
+      cases delegStep L ps args st p' with
+      | none => rfl
+      | some st1 => exact delegLoop_other L ps hf r st1 (fun x hx => h x (by simp [hx]))
+
+theorem delegLoop_vis (L : Lattice) (ps : List Param) (args : List Arg) : ∀ (l : List Param) (st st' : DelSt),
+    delegLoop L ps args st l = some st' → st'.vis = st.vis - (l.filter hiddenPositional).length
+  | [], st, st', h => by simp [delegLoop] at h; subst h; simp
+  | p' :: r, st, st', h => by
+      simp only [delegLoop] at h
+      cases hs : delegStep L ps args st p' with
+      | none => simp [hs] at h
+      | some st1 =>
+          simp only [hs] at h
+          have ih := delegLoop_vis L ps args r st1 st' h
+          have hv : st1.vis = st.vis - (if hiddenPositional p' then 1 else 0) := by
+            unfold delegStep at hs
+            cases hq : p'.position with
+            | some q =>
+                simp only [hq] at hs
+                by_cases h1 : p'.isStar = true
+                · simp [h1] at hs; subst hs; simp [hiddenPositional, h1]
+                · by_cases h2 : p'.hidden = true
+                  · simp [h1, h2] at hs; subst hs; simp [hiddenPositional, hq, h1, h2]
+                  · simp only [h1, h2, Bool.false_eq_true, if_false] at hs
+                    have hz : (if hiddenPositional p' = true then 1 else 0) = 0 := by simp [hiddenPositional, h2]
+                    rw [hz]
+                    split at hs
+                    · split at hs
+                      · cases hs
+                      · simp only [checked, Option.map_eq_some_iff] at hs
+                        obtain ⟨sl, _, rfl⟩ := hs; rfl
+                    · split at hs
+                      · simp only [checked, Option.map_eq_some_iff] at hs
+                        obtain ⟨sl, _, rfl⟩ := hs; rfl
+                      · split at hs
+                        · simp only [checked, Option.map_eq_some_iff] at hs
+                          obtain ⟨sl, _, rfl⟩ := hs; rfl
+                        · cases hs
+            | none =>
+                simp only [hq] at hs
+                have hz : (if hiddenPositional p' = true then 1 else 0) = 0 := by simp [hiddenPositional, hq]
+                rw [hz]
+                split at hs
+                · cases hs; rfl
+                · split at hs
+                  · cases hs; rfl
+                  · split at hs
+                    · simp only [checked, Option.map_eq_some_iff] at hs
+                      obtain ⟨sl, _, rfl⟩ := hs; rfl
+                    · split at hs
+                      · simp only [checked, Option.map_eq_some_iff] at hs
+                        obtain ⟨sl, _, rfl⟩ := hs; rfl
+                      · cases hs
+          rw [ih, hv]
+          simp only [List.filter_cons]
+          split <;> simp <;> omega
+
+/-- the part of `get_delegate` after the loop only looks at the arguments beyond the visible slots -/
+theorem getDelegate_tail (L : Lattice) (ps : List Param) {s : Nat} {args args' : List Arg} (hf : SlotFreed s args args')
+    (hs : s < visCount ps) (kw kw2 : KwArgs)
+    (h : delegLoop L ps args' { pos := List.replicate (positionalCount ps) none, kw := [], rest := kw2, vis := positionalCount ps } ps =
+         delegLoop L ps args { pos := List.replicate (positionalCount ps) none, kw := [], rest := kw, vis := positionalCount ps } ps) :
+    getDelegate L ps args' kw2 = getDelegate L ps args kw := by
+  unfold getDelegate
+  simp only [h]
+  cases hl : delegLoop L ps args { pos := List.replicate (positionalCount ps) none, kw := [], rest := kw, vis := positionalCount ps } ps with
+  | none => rfl
+  | some st =>
+      have hv := delegLoop_vis L ps args ps _ st hl
+      simp only at hv
+      have hk : s < st.vis := by rw [hv]; exact hs
+      have he := hf.extras st.vis hk
+      simp only [gt_iff_lt, decide_eq_decide] at he
+      have hlen : (args'.length > st.vis) = (args.length > st.vis) := propext he.1
+      simp only [hlen, he.2]
+
+/-- **a defaulted argument may be left out** (cut off at the end, or skipped with an empty slot):
+    `get_delegate` binds the same vector as when the default value is written out -/
+theorem spelling_default_move (L : Lattice) (ps : List Param) (args args' : List Arg) (kw : KwArgs)
+    (p : Param) (pre post : List Param) (s : Nat) (d : Arg)
+    (hps : ps = pre ++ p :: post) (hslot : slotOf ps p = some s) (hs : s < visCount ps)
+    (hothers : ∀ p' ∈ pre ++ post, slotOf ps p' ≠ some s)
+    (hd : p.default = some d) (hgiven : given args s = true) (hval : args.getD s .noValue = d)
+    (hkw : ahas p.argName kw = false) (hf : SlotFreed s args args') :
+    getDelegate L ps args' kw = getDelegate L ps args kw := by
+  apply getDelegate_tail L ps hf hs
+  -- the step of `p` itself
+  have hstep : ∀ st : DelSt, ahas p.argName st.rest = false →
+      delegStep L ps args' st p = delegStep L ps args st p := by
+    intro st hr
+    unfold slotOf at hslot
+    cases hq : p.position with
+    | none => simp [hq] at hslot
+    | some q =>
+        simp only [hq] at hslot
+        by_cases hsh : (p.isStar || p.hidden) = true
+        · simp [hsh] at hslot
+        · simp only [hsh, Bool.false_eq_true, if_false, Option.some.injEq] at hslot
+          simp only [Bool.or_eq_true, not_or, Bool.not_eq_true] at hsh
+          unfold delegStep
+          simp only [hq, hsh.1, hsh.2, Bool.false_eq_true, if_false, hslot, hf.freed, hgiven, hr, if_true,
+            ahas_false_lookup _ _ hr, hd, hval]
+  have hloop : ∀ (l : List Param) (st : DelSt), (∀ p' ∈ l, p' = p ∨ slotOf ps p' ≠ some s) →
+      ahas p.argName st.rest = false → delegLoop L ps args' st l = delegLoop L ps args st l := by
+    intro l
+    induction l with
+    | nil => intros; rfl
+    | cons x r ih =>
+        intro st hl hr
+        have hx : delegStep L ps args' st x = delegStep L ps args st x := by
+          rcases hl x (by simp) with rfl | hx
+          · exact hstep st hr
+          · exact delegStep_other L ps hf st x hx
+        simp only [delegLoop, hx]
+        cases hst : delegStep L ps args st x with
+        | none => rfl
+        | some st1 =>
+            exact ih st1 (fun y hy => hl y (by simp [hy])) (delegStep_rest L ps args _ hst hr)
+  apply hloop
+  · intro p' hp'
+    rw [hps] at hp'
+    simp only [List.mem_append, List.mem_cons] at hp'
+    rcases hp' with h | rfl | h
+    · exact Or.inr (hothers p' (by simp [h]))
+    · exact Or.inl rfl
+    · exact Or.inr (hothers p' (by simp [h]))
+  · exact hkw
+
+/-! ### positional <-> keyword -/
+
+def withKw (n : Name) (a : Arg) (st : DelSt) : DelSt := { st with rest := st.rest ++ [(n, a)] }
+
+theorem ahas_append_other {n' n : Name} (a : Arg) (r : KwArgs) (h : n ≠ n') :
+    ahas n' (r ++ [(n, a)]) = ahas n' r := by
+  simp [ahas, List.any_append, h]
+
+theorem alookup_append_other {n' n : Name} (a : Arg) : ∀ (r : KwArgs), n ≠ n' →
+    alookup n' (r ++ [(n, a)]) = alookup n' r
+  | [], h => by simp [alookup, h]
+  | (k, v) :: r, h => by
+      simp only [List.cons_append, alookup]
+      split
+      · rfl
+      · exact alookup_append_other a r h
+
+theorem adel_append_other {n' n : Name} (a : Arg) (r : KwArgs) (h : n ≠ n') :
+    adel n' (r ++ [(n, a)]) = adel n' r ++ [(n, a)] := by
+  simp [adel, List.filter_append, h]
+
+theorem alookup_append_self (n : Name) (a : Arg) : ∀ (r : KwArgs), ahas n r = false →
+    alookup n (r ++ [(n, a)]) = some a
+  | [], _ => by simp [alookup]
+  | (k, v) :: r, h => by
+      simp only [ahas, List.any_cons, Bool.or_eq_false_iff] at h
+      simp only [List.cons_append, alookup, h.1, Bool.false_eq_true, if_false]
+      exact alookup_append_self n a r (by simpa [ahas] using h.2)
+
+theorem adel_append_self (n : Name) (a : Arg) : ∀ (r : KwArgs), ahas n r = false → adel n (r ++ [(n, a)]) = r
+  | [], _ => by simp [adel]
+  | (k, v) :: r, h => by
+      simp only [ahas, List.any_cons, Bool.or_eq_false_iff] at h
+      have ih := adel_append_self n a r (by simpa [ahas] using h.2)
+      simp only [adel] at ih ⊢
+      simp only [List.cons_append, List.filter_cons, h.1, Bool.not_false, if_true, ih]
+
+/-- `p'` is not passed under the name `n` -/
+def NameOther (n : Name) (p' : Param) : Prop := p'.hidden = false → p'.argName ≠ n
+
+theorem delegStep_kw_other (L : Lattice) (ps : List Param) {s : Nat} {args args' : List Arg}
+    (hf : SlotFreed s args args') (n : Name) (a : Arg) (st : DelSt) (p' : Param)
+    (hs : slotOf ps p' ≠ some s) (hn : NameOther n p') :
+    delegStep L ps args' (withKw n a st) p' = (delegStep L ps args st p').map (withKw n a) := by
+  rw [delegStep_other L ps hf _ p' hs]
+  unfold delegStep
+  cases hq : p'.position with
+  | some q =>
+      simp only
+      by_cases h1 : p'.isStar = true
+      · simp [h1]
+      · by_cases h2 : p'.hidden = true
+        · simp [h1, h2, withKw]
+        · have hne : n ≠ p'.argName := fun e => hn (by simpa using h2) e.symm
+          simp only [h1, h2, Bool.false_eq_true, if_false, withKw, ahas_append_other a _ hne,
+            alookup_append_other a _ hne, adel_append_other a _ hne]
+          split
+          · split
+            · rfl
+            · simp only [Option.map_map]; rfl
+          · cases alookup p'.argName st.rest with
+            | some v => simp only [Option.map_map]; rfl
+            | none =>
+                cases p'.default with
+                | some d => simp only [Option.map_map]; rfl
+                | none => rfl
+  | none =>
+      simp only
+      by_cases h1 : p'.isStarStar = true
+      · simp [h1]
+      · by_cases h2 : p'.hidden = true
+        · simp [h1, h2, withKw]
+        · have hne : n ≠ p'.argName := fun e => hn (by simpa using h2) e.symm
+          simp only [h1, h2, Bool.false_eq_true, if_false, withKw, alookup_append_other a _ hne,
+            adel_append_other a _ hne]
+          cases alookup p'.argName st.rest with
+          | some v => simp only [Option.map_map]; rfl
+          | none =>
+              cases p'.default with
+              | some d => simp only [Option.map_map]; rfl
+              | none => rfl
+
+theorem delegLoop_kw_other (L : Lattice) (ps : List Param) {s : Nat} {args args' : List Arg}
+    (hf : SlotFreed s args args') (n : Name) (a : Arg) : ∀ (l : List Param) (st : DelSt),
+    (∀ p' ∈ l, slotOf ps p' ≠ some s ∧ NameOther n p') →
+    delegLoop L ps args' (withKw n a st) l = (delegLoop L ps args st l).map (withKw n a)
+  | [], _, _ => rfl
+  | p' :: r, st, h => by
+      simp only [delegLoop, delegStep_kw_other L ps hf n a st p' (h p' (by simp)).1 (h p' (by simp)).2]
+      cases delegStep L ps args st p' with
+      | none => rfl
+      | some st1 => exact delegLoop_kw_other L ps hf n a r st1 (fun x hx => h x (by simp [hx]))
+
+theorem delegLoop_append (L : Lattice) (ps : List Param) (args : List Arg) : ∀ (l1 l2 : List Param) (st : DelSt),
+    delegLoop L ps args st (l1 ++ l2) = (delegLoop L ps args st l1).bind fun st' => delegLoop L ps args st' l2
+  | [], _, _ => rfl
+  | p :: r, l2, st => by
+      simp only [List.cons_append, delegLoop]
+      cases delegStep L ps args st p with
+      | none => rfl
+      | some st1 => exact delegLoop_append L ps args r l2 st1
+
+theorem delegLoop_rest (L : Lattice) (ps : List Param) (args : List Arg) (n : Name) : ∀ (l : List Param) (st st' : DelSt),
+    delegLoop L ps args st l = some st' → ahas n st.rest = false → ahas n st'.rest = false
+  | [], st, st', h, hn => by simp [delegLoop] at h; subst h; exact hn
+  | p :: r, st, st', h, hn => by
+      simp only [delegLoop] at h
+      cases hs : delegStep L ps args st p with
+      | none => simp [hs] at h
+      | some st1 =>
+          simp only [hs] at h
+          exact delegLoop_rest L ps args n r st1 st' h (delegStep_rest L ps args n hs hn)
+
+/-- **an argument may be passed positionally or by keyword** (under the parameter's alias name):
+    moving the argument in slot `s` out of the argument list (empty slot, or cut off at the end) into
+    the keywords leaves the vector `get_delegate` binds unchanged -/
+theorem spelling_kw_move (L : Lattice) (ps : List Param) (args args' : List Arg) (kw : KwArgs)
+    (p : Param) (pre post : List Param) (s : Nat) (a : Arg)
+    (hps : ps = pre ++ p :: post) (hslot : slotOf ps p = some s) (hs : s < visCount ps)
+    (hothers : ∀ p' ∈ pre ++ post, slotOf ps p' ≠ some s ∧ NameOther p.argName p')
+    (hgiven : given args s = true) (hval : args.getD s .noValue = a)
+    (hkw : ahas p.argName kw = false) (hf : SlotFreed s args args') :
+    getDelegate L ps args' (kw ++ [(p.argName, a)]) = getDelegate L ps args kw := by
+  apply getDelegate_tail L ps hf hs
+  have hpre : ∀ p' ∈ pre, slotOf ps p' ≠ some s ∧ NameOther p.argName p' := fun p' h => hothers p' (by simp [h])
+  have hpost : ∀ p' ∈ post, slotOf ps p' ≠ some s := fun p' h => (hothers p' (by simp [h])).1
+  -- the step of `p` itself: positional in one run, keyword in the other, same resulting state
+  have hstep : ∀ st : DelSt, ahas p.argName st.rest = false →
+      delegStep L ps args' (withKw p.argName a st) p = delegStep L ps args st p := by
+    intro st hr
+    unfold slotOf at hslot
+    cases hq : p.position with
+    | none => simp [hq] at hslot
+    | some q =>
+        simp only [hq] at hslot
+        by_cases hsh : (p.isStar || p.hidden) = true
+        · simp [hsh] at hslot
+        · simp only [hsh, Bool.false_eq_true, if_false, Option.some.injEq] at hslot
+          simp only [Bool.or_eq_true, not_or, Bool.not_eq_true] at hsh
+          unfold delegStep
+          simp only [hq, hsh.1, hsh.2, Bool.false_eq_true, if_false, hslot, hf.freed, hgiven, hr, if_true, withKw,
+            alookup_append_self _ _ _ hr, adel_append_self _ _ _ hr, hval]
+  have h0 : ({ pos := List.replicate (positionalCount ps) none, kw := [], rest := kw ++ [(p.argName, a)],
+               vis := positionalCount ps } : DelSt) =
+      withKw p.argName a { pos := List.replicate (positionalCount ps) none, kw := [], rest := kw, vis := positionalCount ps } := rfl
+  rw [h0]
+  conv => lhs; arg 5; rw [hps]
+  conv => rhs; arg 5; rw [hps]
+  rw [delegLoop_append, delegLoop_append, delegLoop_kw_other L ps hf _ a pre _ hpre]
+  cases h1 : delegLoop L ps args { pos := List.replicate (positionalCount ps) none, kw := [], rest := kw, vis := positionalCount ps } pre with
+  | none => rfl
+  | some st1 =>
+      have hr := delegLoop_rest L ps args p.argName pre _ st1 h1 hkw
+      simp only [Option.map_some, Option.bind_some, delegLoop, hstep st1 hr]
+      cases delegStep L ps args st1 p with
+      | none => rfl
+      | some st2 => exact delegLoop_other L ps hf post st2 hpost
+
+/-- the side conditions of the two move theorems, read off a checked table (`movesOk`, which
+    `C12Gen.registry_moves_ok` establishes for every registered definition) -/
+theorem movesOk_spec {ps : List Param} (hok : movesOk ps = true) {i : Nat} {p : Param} {s : Nat}
+    (hi : ps[i]? = some p) (hslot : slotOf ps p = some s) :
+    ps = ps.take i ++ p :: ps.drop (i + 1) ∧ s < visCount ps ∧
+    ∀ p' ∈ ps.take i ++ ps.drop (i + 1), slotOf ps p' ≠ some s ∧ NameOther p.argName p' := by
+  have hlt : i < ps.length := by
+    rcases Nat.lt_or_ge i ps.length with h | h
+    · exact h
+    · rw [List.getElem?_eq_none h] at hi; cases hi
+  have hget : ps[i] = p := by
+    rw [List.getElem?_eq_getElem hlt] at hi; exact Option.some.inj hi
+  unfold movesOk at hok
+  rw [List.all_eq_true] at hok
+  have := hok i (List.mem_range.2 hlt)
+  simp only [hi, hslot, Bool.and_eq_true, decide_eq_true_eq, List.all_eq_true] at this
+  refine ⟨?_, this.1, ?_⟩
+  · have h1 := (List.take_append_drop i ps).symm
+    rw [List.drop_eq_getElem_cons hlt, hget] at h1
+    exact h1
+  · intro p' hp'
+    have h2 := this.2 p' hp'
+    simp only [Bool.and_eq_true, bne_iff_ne, ne_eq, Bool.or_eq_true] at h2
+    refine ⟨h2.1, fun hh => ?_⟩
+    rcases h2.2 with h3 | h3
+    · rw [hh] at h3; cases h3
+    · exact h3
+
+/-- the full statement (not derived here): for a well-formed definition, every way of spelling one
+    argument vector - any positional prefix with the rest by keyword in any order, any subset of the
+    defaulted arguments omitted, skipped or given explicitly - makes both `map_args` succeed/fail
+    alike and `get_delegate` bind the same vector -/
+def spelling_equiv_full : Prop :=
+  ∀ (L : Lattice) (ps : List Param), wfDef ps = true →
+    ∀ (args args' : List Arg) (kw kw' : KwArgs),
+      (∀ p ∈ ps, p.hidden = false → p.isStar = false → p.isStarStar = false →
+        -- the value each named parameter receives is the same in both spellings
+        (match slotOf ps p with
+          | some s => if given args s then some (args.getD s .noValue) else alookup p.argName kw
+          | none => alookup p.argName kw) =
+        (match slotOf ps p with
+          | some s => if given args' s then some (args'.getD s .noValue) else alookup p.argName kw'
+          | none => alookup p.argName kw')) →
+      args.drop (visCount ps) = args'.drop (visCount ps) →
+      getDelegate L ps args kw = getDelegate L ps args' kw'
+
+/-- hypotheses of the two move theorems are satisfiable: `f(a, ctx, b = d)` with a hidden parameter
+    in the middle, `b` moved to a keyword / left to its default -/
+example :
+    let pa : Param := C05.Ex.pos 'a' 0 (C05.Ex.cls 4)
+    let ph : Param := { C05.Ex.pos 'h' 1 (.hidden .context) with }
+    let pb : Param := { C05.Ex.pos 'b' 2 (C05.Ex.cls 1) with default := some (.value C05.Ex.dVal) }
+    let ps := [pa, ph, pb]
+    slotOf ps pb = some 1 ∧ visCount ps = 2 ∧
+    getDelegate C05.Ex.lat ps [C05.Ex.tick 1] [(['b'], .value C05.Ex.dVal)] =
+      getDelegate C05.Ex.lat ps [C05.Ex.tick 1, .value C05.Ex.dVal] [] ∧
+    getDelegate C05.Ex.lat ps [C05.Ex.tick 1] [] = getDelegate C05.Ex.lat ps [C05.Ex.tick 1, .value C05.Ex.dVal] [] ∧
+    (getDelegate C05.Ex.lat ps [C05.Ex.tick 1] []).isSome = true := by
+  decide
+
 end Yaql.Props.C12
